@@ -13,13 +13,17 @@ pub struct Document { pub ghost_id: Ghost<int> }
 impl Document {
     /// the /Type of the dictionary object `id`
     pub uninterp spec fn type_of(&self, id: ObjectId) -> Option<Seq<u8>>;
+    /// the /Kids array of the dictionary object `id` (PageTreeIter::kids: direct or behind references), if it has one
+    pub uninterp spec fn kids_of(&self, id: ObjectId) -> Option<Seq<Object>>;
     #[verifier::external_body]
     pub fn dict_type(&self, id: ObjectId) -> (r: Result<&[u8]>)
         ensures r is Ok <==> self.type_of(id) is Some, r is Ok ==> r->Ok_0@ == self.type_of(id)->Some_0
     { unimplemented!() }
 }
 #[verifier::external_body]
-pub fn doc_kids<'a>(doc: &'a Document, id: ObjectId) -> (r: Option<&'a [Object]>) { unimplemented!() }
+pub fn doc_kids<'a>(doc: &'a Document, id: ObjectId) -> (r: Option<&'a [Object]>)
+    ensures r is Some <==> doc.kids_of(id) is Some, r is Some ==> r->Some_0@ == doc.kids_of(id)->Some_0
+{ unimplemented!() }
 #[verifier::external_body]
 pub fn split_first_opt<'a>(k: Option<&'a [Object]>) -> (r: Option<(&'a Object, &'a [Object])>)
     ensures r is Some <==> (k is Some && k->Some_0@.len() > 0),
@@ -35,3 +39,64 @@ pub struct PageTreeIter<'a> {
     pub iter_limit: usize,
 }
 pub open spec fn page_name() -> Seq<u8> { seq![0x50u8, 0x61u8, 0x67u8, 0x65u8] }
+pub open spec fn pages_name() -> Seq<u8> { seq![0x50u8, 0x61u8, 0x67u8, 0x65u8, 0x73u8] }
+
+// ===== the walk as a state machine over views =====
+/// what the iterator holds: the kids still to visit at the current level, the pending sibling lists of the levels above
+/// (innermost last), the remaining budget
+pub struct St { pub kids: Option<Seq<Object>>, pub stack: Seq<Seq<Object>>, pub limit: nat }
+pub open spec fn stack_view(st: Seq<&[Object]>) -> Seq<Seq<Object>> { Seq::new(st.len(), |i: int| st[i]@) }
+impl<'a> PageTreeIter<'a> {
+    pub open spec fn view(&self) -> St {
+        St { kids: match self.kids { Some(k) => Some(k@), None => None }, stack: stack_view(self.stack@), limit: self.iter_limit as nat }
+    }
+}
+pub closed spec fn limit_nat() -> nat { PAGE_TREE_DEPTH_LIMIT as nat }
+/// one call of next(): the id it returns and the state it leaves
+#[verifier::opaque]
+pub open spec fn next_spec(doc: &Document, s: St) -> (Option<ObjectId>, St)
+    decreases s.limit, s.stack.len()
+{
+    if s.kids is Some && s.kids->Some_0.len() > 0 {
+        let kid = s.kids->Some_0[0];
+        let rest = s.kids->Some_0.subrange(1, s.kids->Some_0.len() as int);
+        if s.limit == 0 { (None, s) } else {
+            let s1 = St { kids: Some(rest), stack: s.stack, limit: (s.limit - 1) as nat };
+            match kid {
+                Object::Reference(id) => match doc.type_of(id) {
+                    Some(t) => if t == page_name() { (Some(id), s1) }
+                        else if t == pages_name() && s.stack.len() < limit_nat() {
+                            next_spec(doc, St { kids: doc.kids_of(id), stack: if rest.len() > 0 { s.stack.push(rest) } else { s.stack }, limit: s1.limit })
+                        } else { next_spec(doc, s1) },
+                    None => next_spec(doc, s1),
+                },
+                Object::Other => next_spec(doc, s1),
+            }
+        }
+    } else if s.stack.len() > 0 {
+        next_spec(doc, St { kids: Some(s.stack.last()), stack: s.stack.drop_last(), limit: s.limit })
+    } else { (None, s) }
+}
+pub proof fn lemma_next_unfold(doc: &Document, s: St)
+    ensures next_spec(doc, s) == (
+        if s.kids is Some && s.kids->Some_0.len() > 0 {
+            let kid = s.kids->Some_0[0];
+            let rest = s.kids->Some_0.subrange(1, s.kids->Some_0.len() as int);
+            if s.limit == 0 { (None::<ObjectId>, s) } else {
+                let s1 = St { kids: Some(rest), stack: s.stack, limit: (s.limit - 1) as nat };
+                match kid {
+                    Object::Reference(id) => match doc.type_of(id) {
+                        Some(t) => if t == page_name() { (Some(id), s1) }
+                            else if t == pages_name() && s.stack.len() < limit_nat() {
+                                next_spec(doc, St { kids: doc.kids_of(id), stack: if rest.len() > 0 { s.stack.push(rest) } else { s.stack }, limit: s1.limit })
+                            } else { next_spec(doc, s1) },
+                        None => next_spec(doc, s1),
+                    },
+                    Object::Other => next_spec(doc, s1),
+                }
+            }
+        } else if s.stack.len() > 0 {
+            next_spec(doc, St { kids: Some(s.stack.last()), stack: s.stack.drop_last(), limit: s.limit })
+        } else { (None::<ObjectId>, s) })
+{ reveal_with_fuel(next_spec, 2); }
+proof fn lemma_limit_nat() ensures limit_nat() == PAGE_TREE_DEPTH_LIMIT as nat { }
